@@ -168,30 +168,7 @@ func checkC04(rep *core.Report) {
 		}
 		checkDecodeSites(prog, r3, r4, r5, c, sd)
 		checkTemplateProvenance(prog, r6, c, sd)
-		// insert stores unconditionally
-		var upd *ssa.MapUpdate
-		allInstrs(c.insert, func(ins ssa.Instruction) {
-			if mu, ok := ins.(*ssa.MapUpdate); ok && c.isMapValue(mu.Map) {
-				upd = mu
-			}
-		})
-		iname := core.FuncName(c.insert)
-		if upd == nil {
-			r4.Fail(iname+":stores", c.insert.Pos(), "insert has no map store")
-		} else {
-			w := core.Walk{Blocked: func(i ssa.Instruction) bool { return i == upd }}
-			skipped := false
-			for i := range w.ReachFromEntry(c.insert) {
-				if _, isRet := i.(*ssa.Return); isRet {
-					skipped = true
-				}
-			}
-			r4.Check(!skipped, iname+":unconditional", upd.Pos(), "the store is on every path through insert",
-				"insert can return without storing (e.g. when it judges the template unchanged): a re-announced template that differs in a part the comparison ignores is dropped and data keeps being decoded with the superseded one")
-			// the stored record is the parameter, unmodified
-			recP := c.insert.Params[len(c.insert.Params)-1]
-			r4.Check(core.BackwardSlice(upd.Value, core.SliceOpts{})[recP], iname+":stores-argument", upd.Pos(), "stores the record it was given", "insert stores something other than the record it was given")
-		}
+		checkInsertUnconditional(r4, c)
 	}
 	// RPC path
 	checkRPCInsert(prog, r3)
@@ -511,4 +488,33 @@ func checkTemplateProvenance(prog *core.Program, r6 *core.RuleRun, c *tplCache, 
 	if n == 0 {
 		r6.Undecided(name+":record-template", fn.Pos(), "no record decoding call found in the set decoder")
 	}
+}
+
+
+// checkInsertUnconditional (R04.4, also a premise of C03/C06: the decoder gets the template as last announced): every
+// path through the cache's insert reaches the map store, and what is stored is the record passed in.
+func checkInsertUnconditional(r4 *core.RuleRun, c *tplCache) {
+	var upd *ssa.MapUpdate
+	allInstrs(c.insert, func(ins ssa.Instruction) {
+		if mu, ok := ins.(*ssa.MapUpdate); ok && c.isMapValue(mu.Map) {
+			upd = mu
+		}
+	})
+	iname := core.FuncName(c.insert)
+	if upd == nil {
+		r4.Fail(iname+":stores", c.insert.Pos(), "insert has no map store")
+		return
+	}
+	w := core.Walk{Blocked: func(i ssa.Instruction) bool { return i == upd }}
+	skipped := false
+	for i := range w.ReachFromEntry(c.insert) {
+		if _, isRet := i.(*ssa.Return); isRet {
+			skipped = true
+		}
+	}
+	r4.Check(!skipped, iname+":unconditional", upd.Pos(), "the store is on every path through insert",
+		"insert can return without storing (e.g. when it judges the template unchanged): a re-announced template that differs in a part the comparison ignores is dropped and data keeps being decoded with the superseded one")
+	// the stored record is the parameter, unmodified
+	recP := c.insert.Params[len(c.insert.Params)-1]
+	r4.Check(core.BackwardSlice(upd.Value, core.SliceOpts{})[recP], iname+":stores-argument", upd.Pos(), "stores the record it was given", "insert stores something other than the record it was given")
 }
